@@ -71,6 +71,11 @@ impl Cond {
 #[derive(Default)]
 pub struct Arena {
     pub nodes: Vec<Node>,
+    /// value of a *closed* node (no variables below it), evaluated in native f32; `None` for open nodes
+    pub closed: Vec<Option<f32>>,
+    /// fold every constant operation (seeded translator-validation runs); otherwise only exact results are folded,
+    /// so that the real-arithmetic reading of a trace never contains a rounded constant
+    pub fold_inexact: bool,
     intern: HashMap<Node, u32>,
     pub conds: Vec<Cond>,
     cintern: HashMap<Cond, u32>,
@@ -98,6 +103,10 @@ thread_local! {
     pub static ARENA: RefCell<Arena> = RefCell::new(Arena { max_decisions: 4096, ..Default::default() });
 }
 
+pub fn set_fold_inexact(on: bool) {
+    with(|a| a.fold_inexact = on)
+}
+
 pub fn with<T>(f: impl FnOnce(&mut Arena) -> T) -> T {
     ARENA.with(|a| f(&mut a.borrow_mut()))
 }
@@ -111,12 +120,52 @@ pub fn not_encodable(msg: &str) -> ! {
 }
 
 impl Arena {
+    pub fn val(&self, r: R) -> Option<f32> {
+        match r {
+            R::C(b) => Some(f32::from_bits(b)),
+            R::N(i) => self.closed[i as usize],
+        }
+    }
+    fn closed_value(&self, n: &Node) -> Option<f32> {
+        Some(match *n {
+            Node::Var(_) => return None,
+            Node::Add(x, y) => self.val(x)? + self.val(y)?,
+            Node::Sub(x, y) => self.val(x)? - self.val(y)?,
+            Node::Mul(x, y) => self.val(x)? * self.val(y)?,
+            Node::Div(x, y) => self.val(x)? / self.val(y)?,
+            Node::Neg(x) => -self.val(x)?,
+            Node::Max(x, y) => self.val(x)?.max(self.val(y)?),
+            Node::Min(x, y) => self.val(x)?.min(self.val(y)?),
+            Node::Ite(cd, t, e) => {
+                let c = self.conds[cd as usize];
+                let (p, q) = c.operands();
+                if eval_cond(c, self.val(p)?, self.val(q)?) {
+                    self.val(t)?
+                } else {
+                    self.val(e)?
+                }
+            }
+            Node::F(k, x) => {
+                let v = self.val(x)?;
+                match k {
+                    F1::Exp => v.exp(),
+                    F1::Ln => v.ln(),
+                    F1::Sqrt => v.sqrt(),
+                    F1::Tanh => v.tanh(),
+                    F1::Cosh => v.cosh(),
+                    F1::Abs => v.abs(),
+                }
+            }
+        })
+    }
     pub fn mk(&mut self, n: Node) -> R {
         if let Some(&i) = self.intern.get(&n) {
             return R::N(i);
         }
         let i = self.nodes.len() as u32;
+        let cvv = self.closed_value(&n);
         self.nodes.push(n);
+        self.closed.push(cvv);
         self.intern.insert(n, i);
         R::N(i)
     }
@@ -137,6 +186,25 @@ impl Arena {
 /// The symbolic scalar.
 #[derive(Clone, Copy)]
 pub struct Sf32(pub R);
+
+/// is `r` the exact result of `x op y`?
+fn exact(x: f32, y: f32, r: f32, k: u8) -> bool {
+    let (xd, yd, rd) = (x as f64, y as f64, r as f64);
+    match k {
+        0 | 1 => {
+            let e = if k == 0 { xd + yd } else { xd - yd };
+            // the f64 sum of two f32 is exact unless the exponents are more than 29 apart, in which case the smaller
+            // operand is lost entirely or partly: treat as inexact unless it is zero
+            let gap_ok = x == 0.0 || y == 0.0 || (xd.abs().log2() - yd.abs().log2()).abs() < 28.0;
+            gap_ok && e == rd
+        }
+        2 => {
+            let e = xd * yd; // 48 significant bits: exact in f64 (barring f64 underflow, far below f32 range)
+            e == rd
+        }
+        _ => y != 0.0 && rd * yd == xd && ((rd * yd) / yd == rd),
+    }
+}
 
 fn cv(r: R) -> Option<f32> {
     match r {
@@ -167,8 +235,12 @@ impl Sf32 {
             Sf32(a.mk(Node::Var(k)))
         })
     }
+    /// the native f32 value if no variable occurs below this term
     pub fn concrete(self) -> Option<f32> {
-        cv(self.0)
+        match self.0 {
+            R::C(b) => Some(f32::from_bits(b)),
+            R::N(_) => with(|a| a.val(self.0)),
+        }
     }
     pub fn is_symbolic(self) -> bool {
         matches!(self.0, R::N(_))
@@ -188,12 +260,16 @@ impl Sf32 {
 
     fn bin(self, o: Sf32, k: u8) -> Sf32 {
         if let (Some(x), Some(y)) = (cv(self.0), cv(o.0)) {
-            return c(match k {
+            let r = match k {
                 0 => x + y,
                 1 => x - y,
                 2 => x * y,
                 _ => x / y,
-            });
+            };
+            if !r.is_finite() || exact(x, y, r, k) || with(|a| a.fold_inexact) {
+                return c(r);
+            }
+            // an inexact constant operation stays a (closed) node: exact in the real reading, one IEEE operation in the float reading
         }
         // IEEE-exact identities only (valid for every operand incl. NaN, infinities and signed zeros):
         //   (-0.0) + x = x,  x + (-0.0) = x,  x - (+0.0) = x,  1 * x = x,  x * 1 = x,  x / 1 = x
@@ -241,7 +317,7 @@ impl Sf32 {
     }
 
     pub fn f1(self, k: F1) -> Sf32 {
-        if let Some(x) = cv(self.0) {
+        if let Some(x) = self.concrete() {
             return c(match k {
                 F1::Exp => x.exp(),
                 F1::Ln => x.ln(),
@@ -402,20 +478,20 @@ impl Sf32 {
         ite(c2, hi, x1)
     }
     pub fn is_nan(self) -> bool {
-        match cv(self.0) {
+        match self.concrete() {
             Some(x) => x.is_nan(),
             // Real theory has no NaN; FP obligations assert NaN-freeness explicitly on the DAG.
             None => false,
         }
     }
     pub fn is_finite(self) -> bool {
-        match cv(self.0) {
+        match self.concrete() {
             Some(x) => x.is_finite(),
             None => true,
         }
     }
     pub fn is_infinite(self) -> bool {
-        match cv(self.0) {
+        match self.concrete() {
             Some(x) => x.is_infinite(),
             None => false,
         }
@@ -524,6 +600,9 @@ fn implied(known: Cond, value: bool, query: Cond, no_ties: bool) -> Option<bool>
 fn decide(cnd: Cond) -> bool {
     let (x, y) = cnd.operands();
     if let (Some(p), Some(q)) = (cv(x), cv(y)) {
+        return eval_cond(cnd, p, q);
+    }
+    if let (Some(p), Some(q)) = with(|a| (a.val(x), a.val(y))) {
         return eval_cond(cnd, p, q);
     }
     with(|a| {
@@ -864,17 +943,19 @@ impl Default for Sf32 {
 }
 impl fmt::Debug for Sf32 {
     fn fmt(&self, f: &mut fmt::Formatter) -> fmt::Result {
-        match self.0 {
-            R::C(b) => fmt::Debug::fmt(&f32::from_bits(b), f),
-            R::N(i) => write!(f, "<s{}>", i),
+        match (self.concrete(), self.0) {
+            (Some(x), _) => fmt::Debug::fmt(&x, f),
+            (None, R::N(i)) => write!(f, "<s{}>", i),
+            _ => unreachable!(),
         }
     }
 }
 impl fmt::Display for Sf32 {
     fn fmt(&self, f: &mut fmt::Formatter) -> fmt::Result {
-        match self.0 {
-            R::C(b) => fmt::Display::fmt(&f32::from_bits(b), f),
-            R::N(i) => write!(f, "<s{}>", i),
+        match (self.concrete(), self.0) {
+            (Some(x), _) => fmt::Display::fmt(&x, f),
+            (None, R::N(i)) => write!(f, "<s{}>", i),
+            _ => unreachable!(),
         }
     }
 }
@@ -920,7 +1001,7 @@ castp_row!(bool => [usize,u64,u32,u16,u8,isize,i64,i32,i16,i8,u128,i128]);
 castp_row!(char => [usize,u64,u32,u16,u8,isize,i64,i32,i16,i8,u128,i128]);
 castp_row!(f64 => [usize,u64,u32,u16,u8,isize,i64,i32,i16,i8,u128,i128]);
 macro_rules! castps { ($($t:ty),*) => { $(impl CastP<$t> for Sf32 { fn cast_p(self) -> $t {
-    match cv(self.0) { Some(x) => x as $t, None => not_encodable("cast of a symbolic float to an integer") } } })* } }
+    match self.concrete() { Some(x) => x as $t, None => not_encodable("cast of a symbolic float to an integer") } } })* } }
 castps!(usize, u64, u32, u16, u8, isize, i64, i32, i16, i8, u128, i128);
 pub fn cast_p<S: CastP<T>, T>(x: S) -> T {
     x.cast_p()
